@@ -98,6 +98,9 @@ impl Ctx {
             guard::set_current_family(name);
             for i in lo..hi {
                 guard::set_current_index(i);
+                if i & 7 == 0 {
+                    guard::tick();
+                }
                 f(i, &mut r);
             }
             r.evaluations += hi - lo;
@@ -130,6 +133,9 @@ impl Ctx {
                         guard::set_current_family(name);
                         for i in lo..hi {
                             guard::set_current_index(i);
+                            if i & 7 == 0 {
+                                guard::tick();
+                            }
                             f(i, &mut local);
                         }
                         local.evaluations += hi - lo;
